@@ -41,13 +41,31 @@ def boundary_units(tier):
     return units
 
 
+def nested_resume_units(tier):
+    """An inner parallel (a timed-suspended branch next to a sibling that finishes d seconds after start, d on a grid
+    around the wake-up time and the 300 ms refresh call of the resumption) inside an outer parallel that stays alive."""
+    units = []
+    ac = {"cc": "all_completed"}
+    for d in (0.8, 0.9, 1.0, 1.1, 1.2, 1.3, 1.4, 1.5):
+        inner = {"k": "par", "cfg": ac, "branches": [
+            [{"k": "wait", "s": 1}, {"k": "step", "fn": {"ret": "after-wait"}}, {"k": "step", "fn": {"ret": "after-wait-2"}}],
+            [{"k": "step", "fn": {"sleep": d, "then": {"ret": "sib"}}}]]}
+        p = {"name": f"par[par[w1ss,s{d}],s5]", "seq": [{"k": "par", "cfg": ac, "branches": [
+            [inner], [{"k": "step", "fn": {"sleep": 5, "then": {"ret": "slow"}}}]]}]}
+        for lat in (0.0, 0.3):
+            units.append(({"program": p, "cfg": {"env_kinds": [], "api_latency": lat}},
+                          {"thread": 1, "total": 1} if (tier != "quick" or lat) else {"total": 0}, 20_000))
+    return units
+
+
 def run(ctx):
-    units = simcheck.standard_space(ctx.tier) + fault_units(ctx.tier) + boundary_units(ctx.tier)
+    units = simcheck.standard_space(ctx.tier) + fault_units(ctx.tier) + boundary_units(ctx.tier) + nested_resume_units(ctx.tier)
     return simcheck.run_check(ctx, MOD, units, BOUNDS + "; 9 programs (incl. step/child bodies that outlast the batch window, so that "
                               "an asynchronous START travels alone) with every checkpoint call rejected (5xx/429/4xx), with and "
                               "without API latency, followed by Lambda's retry; 60 programs in which two concurrent ~384 KB step results fill a batch "
                               "to within -40..+380 bytes (6-byte steps) of the size limit just before a child context START and its "
-                              "first inner START are handed over")
+                              "first inner START are handed over; 8 nested programs (inner parallel with a timed-suspended branch whose sibling ends on a "
+                              "100 ms grid around its wake-up, inside an outer parallel that stays alive) with 0/300 ms API latency")
 
 
 def replay(rep):
